@@ -72,7 +72,11 @@ def check_def(args):
         if backend == "grown":
             ns_, np_ = len(d["states"]), len(d["params"])
             x_, t_, th_ = points.points(ns_, np_, seed)[1]
-            m, order = build.build_grown(d, x_, t_, th_)
+            import zlib
+            # every other grown definition: another fresh model compiles and evaluates everything in between
+            inter = bool((zlib.crc32(name.encode()) >> 9) & 1)
+            m, order = build.build_grown(d, x_, t_, th_, interleave_other=inter)
+            out["features"]["grown:other-model-in-between" if inter else "grown:alone"] = 1
         else:
             m, order = build.build(d, lambda_backend=(backend != "cython"))
     except Exception as e:
